@@ -5,19 +5,20 @@ using namespace pbt;
 
 struct FlushPt { size_t out_off, in_off; int kind; };
 
-static std::string check_flush_point(const std::vector<uint8_t> &out, size_t hdr, const std::vector<uint8_t> &fed, int hist_bits) {
+static std::string check_flush_point(const std::vector<uint8_t> &out, size_t hdr, const std::vector<uint8_t> &fed, int hist_bits, const uint8_t *dict = nullptr, size_t dict_len = 0) {
 	if (out.size() < hdr + 4) return fmt("only %zu bytes produced at a completed flush", out.size());
 	const uint8_t *e = out.data() + out.size() - 4;
 	if (!(e[0] == 0 && e[1] == 0 && e[2] == 0xFF && e[3] == 0xFF)) return fmt("output so far does not end with the empty stored block 00 00 FF FF (ends %02x %02x %02x %02x)", e[0], e[1], e[2], e[3]);
 	refinf::Options ro;
 	ro.max_out = fed.size() + 64;
+	ro.dict = dict; ro.dict_len = dict_len;
 	refinf::Result r = refinf::inflate(out.data() + hdr, out.size() - hdr, ro);
 	if (r.st != refinf::TRUNCATED || !r.at_block_boundary) return fmt("reference decoder on the output so far: %s at bit %llu (expected to run out of input exactly at a block boundary)", refinf::status_name(r.st), (unsigned long long) r.err_bit);
 	if (r.last_block_end_bit != (uint64_t) (out.size() - hdr) * 8) return fmt("last block ends at bit %llu, output so far has %zu bits: not byte aligned / trailing bits", (unsigned long long) r.last_block_end_bit, (out.size() - hdr) * 8);
 	for (auto &b : r.blocks) if (b.bfinal) return "a BFINAL block was emitted before end_of_stream";
 	if (r.out != fed) return fmt("output so far decodes to %zu bytes, %zu bytes were fed (first difference at %zu)", r.out.size(), fed.size(), (size_t) (std::mismatch(r.out.begin(), r.out.begin() + std::min(r.out.size(), fed.size()), fed.begin()).first - r.out.begin()));
 	// zlib agrees (Z_SYNC_FLUSH semantics: everything so far is decodable)
-	igz::ZOut z = igz::zlib_inflate(out.data() + hdr, out.size() - hdr, -(hist_bits ? std::max(9, hist_bits) : 15), fed.size() + 64, nullptr, 0, Z_SYNC_FLUSH);
+	igz::ZOut z = igz::zlib_inflate(out.data() + hdr, out.size() - hdr, -(hist_bits ? std::max(9, hist_bits) : 15), fed.size() + 64, dict, dict_len, Z_SYNC_FLUSH);
 	if (z.rc != Z_OK || z.out != fed || z.consumed != out.size() - hdr) return fmt("zlib with Z_SYNC_FLUSH: rc %d, %zu bytes out of %zu fed, consumed %zu of %zu", z.rc, z.out.size(), fed.size(), z.consumed, out.size() - hdr);
 	return "";
 }
@@ -62,7 +63,27 @@ static void body(Tape &t, Ctx &c) {
 	c.fpmix(dg::fingerprint(segs)); for (int k : kinds) c.fpmix(k);
 	c.fpmix(o.level * 100 + o.gzip_flag * 10); c.fpmix(o.hist_bits); c.fpmix(mix64((uint64_t) (uintptr_t) lv)); c.fpmix(in.mode * 7 + in.param); c.fpmix(out.mode * 7 + out.param); c.fpmix(impatient); c.fpmix(far);
 	kern::use_level(lv);
+	// one case in four: a preset dictionary (raw deflate) whose content the data repeats - a full flush must cut the stream off from it as well
+	int dmode = (int) t.pick<uint32_t>({0, 0, 0, 1, 2, 0, 0, 2});
+	std::vector<uint8_t> dict;
+	if (dmode && all.size() >= 200) { o.gzip_flag = 0; size_t dl = std::min<size_t>(all.size() / 2, (size_t) t.range(100, 6000)); dict.assign(all.begin(), all.begin() + dl); } else dmode = 0;
+	c.fpmix(dmode); c.fpmix(dict.size());
 	igz::Deflater d(o);
+	if (dmode) {
+		guard::Buf db = guard::alloc_copy(dict.data(), dict.size(), guard::END, "dictionary");
+		guard::set_readonly(db);
+		int drc = 0;
+		if (dmode == 1) drc = isal_deflate_set_dict(d.s, db.p, (uint32_t) dict.size());
+		else {
+			static struct isal_dict ds;
+			memset(&ds, 0, sizeof ds);
+			drc = isal_deflate_process_dict(d.s, &ds, db.p, (uint32_t) dict.size());
+			if (drc == COMP_OK) drc = isal_deflate_reset_dict(d.s, &ds);
+		}
+		PBT_CHECK(drc == COMP_OK, "deflate:flush:dict", "dictionary call (mode %d) returned %d", dmode, drc);
+		guard::retire(db);
+	}
+	const uint8_t *dp = dict.empty() ? nullptr : dict.data();
 	size_t hdr, trl;
 	igz::wrapper_sizes(o.gzip_flag, hdr, trl);
 	std::vector<FlushPt> pts;
@@ -101,7 +122,7 @@ static void body(Tape &t, Ctx &c) {
 				if (flush == SYNC_FLUSH || flush == FULL_FLUSH) {
 					PBT_CHECK(d.s->internal_state.state == ZSTATE_NEW_HDR, "deflate:flush:state", "%s: after a completed %s flush of step %d the state is %d, not ZSTATE_NEW_HDR", where.c_str(), flush == SYNC_FLUSH ? "sync" : "full", i, (int) d.s->internal_state.state);
 					std::vector<uint8_t> fed(all.begin(), all.begin() + pos);
-					std::string e = check_flush_point(d.out, hdr, fed, o.hist_bits);
+					std::string e = check_flush_point(d.out, hdr, fed, o.hist_bits, dp, dict.size());
 					PBT_CHECK(e.empty(), "deflate:flush:point", "%s: %s flush after step %d (%zu bytes fed, %zu produced): %s", where.c_str(), flush == SYNC_FLUSH ? "sync" : "full", i, pos, d.out.size(), e.c_str());
 					pts.push_back({d.out.size(), pos, flush});
 					if (i + 1 < nsteps && segs[i + 1].kind == 6 && segs[i + 1].len >= 64) after_flush_repeat = true;
@@ -116,7 +137,7 @@ static void body(Tape &t, Ctx &c) {
 		}
 	}
 	refinf::Result ri;
-	std::string v = igzc::verify_stream(d.out, all, o.gzip_flag, o.hist_bits, &ri);
+	std::string v = igzc::verify_stream(d.out, all, o.gzip_flag, o.hist_bits, &ri, dp, dict.size());
 	PBT_CHECK(v.empty(), "deflate:flush:decode", "%s: %s", where.c_str(), v.c_str());
 	// after a completed full flush nothing refers to data before the flush point, and the rest decodes on its own
 	for (auto &p : pts) {
@@ -133,6 +154,7 @@ static void body(Tape &t, Ctx &c) {
 	c.nontrivial = !pts.empty() && after_flush_repeat;
 	c.label(fmt("level=%d", o.level));
 	if (far) c.label("flush-point-beyond-64KiB");
+	if (dmode) c.label(dmode == 1 ? "dictionary=set_dict" : "dictionary=process+reset");
 	c.label(fmt("flush-points=%zu", pts.size() > 3 ? 3 : pts.size()));
 	for (auto &p : pts) c.label(p.kind == FULL_FLUSH ? "completed-full-flush" : "completed-sync-flush");
 	if (out.mode == 1 && out.param < 8) c.label("out<8-bytes");
